@@ -150,7 +150,7 @@ def run_case(ctx, case):
         presig = (w0, next(iter(run.get("out", {})), "?"), tuple(k for k in kinds if k in CULPRITS)[:3])
         seen = ctx.__dict__.setdefault("presig_seen", {})
         seen[presig] = seen.get(presig, 0) + 1
-        if seen[presig] > 2:
+        if seen[presig] > 2 and ctx.corpus_idx is None:     # corpus inputs are always classified (exact-input findings)
             ctx.count("violations_not_shrunk(repeat of an already classified pre-signature)")
             ctx.evaluations += 1
             continue
@@ -161,7 +161,7 @@ def run_case(ctx, case):
                 return False
             b2 = check_run(r2, r2["runs"][0])
             return any(where_class(w) == w0 for w, _ in b2)
-        small = cc.shrink_full(stmts, still, budget=240)
+        small = cc.shrink_full(stmts, still, budget=240 if ctx.corpus_idx is None else 16)
         s2, r2 = fc.run_full(ctx, small, [event], snapshot=True)
         b2 = check_run(r2, r2["runs"][0]) if r2.get("compiled") else bad
         b2 = [b for b in b2 if where_class(b[0]) == w0] or bad
